@@ -1,25 +1,26 @@
 #!/bin/bash
 # tools/seedmatrix.sh [Cxx | Cxx/k ...]  -- run kept seeded changes against their property's quick check (scratch worktrees);
-# writes seeded/MATRIX.md: one row per seed with verdict and first reported reason
+# one row per seed in seeded/.rows/<P>-<k>.row (safe to run several properties in parallel); seeded/MATRIX.md is rebuilt from the rows
 cd /verif
 ARGS=${@:-$(ls seeded | grep '^C')}
 OUT=seeded/MATRIX.md
-[ -f $OUT ] || echo "| seed | check | verdict | first reported reason |" > $OUT
+mkdir -p seeded/.rows
+# rows from an older MATRIX.md that have no row file yet
+if [ -f $OUT ]; then grep '^| C' $OUT | while IFS= read -r l; do id=$(echo "$l" | cut -d'|' -f2 | tr -d ' ' | tr '/' '-'); [ -f seeded/.rows/$id.row ] || echo "$l" > seeded/.rows/$id.row; done; fi
 for a in $ARGS; do
   p=${a%%/*}
   if [ "$a" = "$p" ]; then DIRS=$(ls -d seeded/$p/*/); else DIRS=seeded/$a/; fi
   for d in $DIRS; do k=$(basename $d)
   WT=/tmp/st-$p
   [ -d $WT ] || git -C /repo worktree add -q $WT HEAD
-  (cd $WT && git checkout -q -- . && git clean -fdq -e target && git reset -q --hard $(git -C /repo rev-parse HEAD) && git apply /verif/$d/patch.diff) || { sed -i "/^| $p\/$k |/d" $OUT; echo "| $p/$k | $p | PATCH-DOES-NOT-APPLY | |" >> $OUT; continue; }
+  (cd $WT && git checkout -q -- . && git clean -fdq -e target && git reset -q --hard $(git -C /repo rev-parse HEAD) && git apply /verif/$d/patch.diff) || { echo "| $p/$k | $p | PATCH-DOES-NOT-APPLY | |" > seeded/.rows/$p-$k.row; echo "$p/$k: PATCH-DOES-NOT-APPLY"; continue; }
   VERIF_REPO=$WT timeout 3000 ./check $p > /tmp/sm_${p}_$k.out 2>&1; rc=$?
   why=$(grep -m1 "^  ->" /tmp/sm_${p}_$k.out | cut -c6-220 | tr '|' '/')
   nf=$(grep -c "no-failing-input-found" /tmp/sm_${p}_$k.out)
   nv=$(grep -c "^VIOLATION" /tmp/sm_${p}_$k.out)
   v="MISSED"; [ $rc -eq 1 ] && v="caught ($nv violation lines$([ $nf -gt 0 ] && [ $nf -eq $nv ] && echo ', no concrete input'))"; [ $rc -gt 1 ] && v="ERROR rc=$rc"
-  sed -i "/^| $p\/$k |/d" $OUT
-  echo "| $p/$k | $p | $v | $why |" >> $OUT
+  echo "| $p/$k | $p | $v | $why |" > seeded/.rows/$p-$k.row
   echo "$p/$k: $v"
   (cd $WT && git checkout -q -- . && git clean -fdq -e target)
 done; done
-sort -o $OUT -k2,2 -t'|' $OUT
+{ echo "| seed | check | verdict | first reported reason |"; cat seeded/.rows/*.row | sort -t'|' -k2,2; } > $OUT
